@@ -11,7 +11,7 @@ from harness import scen
 from harness.gallina import glist, gn, gopt, gstr, gz
 
 ID = "C02"
-COQ_TARGETS = ["JsonDoc.vo", "Json.vo", "JsonProofs.vo", "CorrC02.vo", "Props/C02.vo"]
+COQ_TARGETS = ["JsonDoc.vo", "Json.vo", "JsonProofs.vo", "JsonProofs2.vo", "JsonLoadProofs.vo", "JsonLex.vo", "CorrC02.vo", "Props/C02.vo", "PropsJson.vo"]
 PROPS_FILE = "Props/C02.v"
 CORR_IMPORTS = "Base Heap Schema Canon Reach JsonDoc Json CorrC02"
 OPEN_SCOPES = ["string_scope", "list_scope", "Z_scope"]
@@ -43,9 +43,11 @@ TRUSTED = [
     "instantiated by concrete Coq codecs in the correspondence and tested on every generated text and byte array",
     "harness/scen.py: scenario builders through the public API, independent schema computation, identity-based canonical "
     "observation of a CAS (never _find_all_fs / to_* / typecheck)",
-    "ReachProofs (ids_assigned, find_all_shape, find_all_each_once) for what the traversal leaves behind; that a second "
-    "traversal finds the same structures (stableb) and the reader-model = denotation agreement are boolean premises "
-    "evaluated inside Coq on every case",
+    "ReachProofs / ReachSpec (ids_assigned, find_all_shape, find_all_each_once, find_all_closed, find_all_fs_stable, "
+    "succs_declarative) for what the traversal returns and leaves behind; the former premises stableb (second traversal) "
+    "and reader = denotation are theorems now (denote_save_json without stableb, load_json_is_denotation); lex_ok is "
+    "proved for the concrete UTF-8 / base64 codecs (std_lex_ok); doc_ok_json of the written document is proved for its "
+    "closed part (ids distinct, references resolve) and evaluated per case for value kinds and key legality",
 ]
 ASSUMPTIONS = [
     "user type names do not start with the reserved pseudo-package 'uima.noNamespace.' and do not end in '[]'",
@@ -573,6 +575,15 @@ def distribution(scenarios, observations):
     return {"cases": len(scenarios), "modes": modes, "load_arguments": loads, "sink_flags": sinks, "variants": variants,
             "features": feats, "loads_executed": n_loads,
             "objects_max": max([len(s["cspec"]["objs"]) for s in scenarios] or [0])}
+
+
+def extra_checks(ctx):
+    """The JSON halves of C04 / C05 are exported from coq/PropsJson.v (spliced into Props/C04.v / Props/C05.v by the
+    integrator); their Print Assumptions are checked here so that they are re-checked on every run of this property."""
+    from harness import core
+    n, closed, problems, _out = core.check_props("PropsJson.v")
+    return [(f"PropsJson.v: {closed}/{n} theorems of the JSON halves of C04/C05 closed under the global context",
+             not problems and n == closed and n > 0, "; ".join(problems) or "ok", None)]
 
 
 MANIFEST = {
